@@ -317,7 +317,9 @@ def m_all(it, x):
 def m_sum(it, x, start=0):
     c = x if isinstance(x, (list, tuple)) and not (isinstance(x, tuple) and x and isinstance(x[0], str)) else it.concrete_iter(x)
     if c is None:
-        raise Unsupported("sum() of a symbolic iterable")
+        # sum over a symbolic iterable: an unconstrained value (sound over-approximation, like the extremum)
+        it.ctx.notes.append('sum-of-symbolic-iterable-havoced')
+        return it.ctx.fresh('sum')
     acc = start
     for v in c:
         acc = acc + v
